@@ -577,6 +577,25 @@ pub fn on_call(ip: usize, stack_len: usize, base_pointer: u16, num_args: u8, ent
     }
 }
 
+/// vm.rs Call, after the slots for the callee's own variables were reserved: the frame must be exactly
+/// `num_locals` slots on top of the base pointer, and every slot that is not an argument must be null
+pub fn probe_fresh_frame(ip: usize, stack: &[Object], base_pointer: u16, num_args: u8, num_locals: u32) {
+    if !probing() {
+        return;
+    }
+    let bp = base_pointer as usize;
+    if stack.len() != bp + num_locals as usize {
+        probe_fail("call:frame-size", ip, stack.len(), (bp + num_locals as usize) as i64);
+        return;
+    }
+    for (i, o) in stack[bp + num_args as usize..].iter().enumerate() {
+        if o.tag() != Type::Null {
+            probe_fail("call:local-not-fresh", ip, stack.len(), (num_args as usize + i) as i64);
+            return;
+        }
+    }
+}
+
 /// vm.rs popframe
 pub fn on_popframe(ip: usize, frames_len: usize) {
     let bad = with(|s| {
